@@ -365,6 +365,8 @@ struct PointResult {
     tables: String,
     again: String,
     probe: String,
+    /// page audit of the recovered image (token string of the pager engine, spaces replaced by `~`), `-` if not taken
+    pg: String,
     /// crash points inside the recovery itself: `-` (not explored), `ok:<n>`, or the failing ones `j:<phase>:<what>,…`
     nest: String,
 }
@@ -393,12 +395,16 @@ fn open_and_dump(img: &Image, tables: &[String], cfg: DBConfig) -> Result<String
     out
 }
 
-fn observe_image(img: &Image, tables: &[String], cfg: DBConfig, nested: bool) -> PointResult {
+fn index_cols_of(tables: &[String]) -> Vec<(String, String)> {
+    tables.iter().filter(|t| t.starts_with('x')).map(|t| (format!("{}_v", t), "v".to_string())).collect()
+}
+
+fn observe_image(img: &Image, tables: &[String], cfg: DBConfig, nested: bool, audit: bool) -> PointResult {
     let dir = scratch_dir("img");
     img.write_to(&dir);
     let path = dir.join("test.db");
     let mut res =
-        PointResult { open: String::new(), tables: "-".into(), again: "-".into(), probe: "-".into(), nest: "-".into() };
+        PointResult { open: String::new(), tables: "-".into(), again: "-".into(), probe: "-".into(), nest: "-".into(), pg: "-".into() };
     if nested {
         iotap::install();
     }
@@ -415,6 +421,11 @@ fn observe_image(img: &Image, tables: &[String], cfg: DBConfig, nested: bool) ->
         Ok(Ok(db)) => {
             res.open = "ok".into();
             res.tables = dump_tables(&db, tables);
+            if audit {
+                // page graph of the recovered database: every page owned exactly once (tree, overflow chain or free list),
+                // trees ordered — judged by the proved checkers of C10/C11
+                res.pg = super::pager::one_shot_page_audit(&db, &index_cols_of(tables)).replace(' ', "~");
+            }
             drop(db); // clean close (checkpoint)
             if nested {
                 // every prefix of the mutations recovery itself issued is a crash point inside recovery:
@@ -581,6 +592,7 @@ fn run_case(line: &str) -> String {
     }
     // what the live database holds at the end (sanity: must equal the model's final committed state)
     let live = dump_tables(&db, &tables);
+    let live_pg = if hw[0] == "crash08" { super::pager::one_shot_page_audit(&db, &index_cols_of(&tables)).replace(' ', "~") } else { "-".to_string() };
     let events = iotap::take();
     // the recording has stopped: whatever closing the sessions and the database writes now is not part of any image
     drop(sessions);
@@ -653,6 +665,7 @@ fn run_case(line: &str) -> String {
     let mut groups: Vec<(usize, usize, String)> = Vec::new();
     let mut call_at: usize = 0; // index of the latest `call` mark
     let mut nest_budget: usize = std::env::var("AXH_CRASH_NEST").ok().and_then(|s| s.parse().ok()).unwrap_or(8);
+    let mut audit_budget: usize = std::env::var("AXH_CRASH_AUDIT").ok().and_then(|s| s.parse().ok()).unwrap_or(12);
     let mut strict_budget: usize = std::env::var("AXH_CRASH_STRICT").ok().and_then(|s| s.parse().ok()).unwrap_or(45);
     let mut strict_groups: Vec<(usize, String)> = Vec::new();
     for &k in &points {
@@ -682,7 +695,11 @@ fn run_case(line: &str) -> String {
         if nested {
             nest_budget -= 1;
         }
-        let pr = observe_image(&img, &tables, cfg, nested);
+        let audit = hw[0] == "crash08" && audit_budget > 0 && (nested || k % 7 == 0);
+        if audit {
+            audit_budget -= 1;
+        }
+        let pr = observe_image(&img, &tables, cfg, nested, audit);
         // phase of the call in flight: I/O done so far / all I/O of that call
         let ph = if inflight.is_some() {
             let done: String = events[call_at..k].iter().filter_map(ev_char).collect();
@@ -700,7 +717,7 @@ fn run_case(line: &str) -> String {
             "-/-".to_string()
         };
         let desc = format!(
-            "acked={} infl={} ph={} open={} T={} again={} probe={} nest={}",
+            "acked={} infl={} ph={} open={} T={} again={} probe={} nest={} pg={}",
             if acked.is_empty() { "-".to_string() } else { acked.iter().map(|u| u.to_string()).collect::<Vec<_>>().join(",") },
             inflight.map(|u| u.to_string()).unwrap_or_else(|| "-".into()),
             ph,
@@ -708,7 +725,8 @@ fn run_case(line: &str) -> String {
             if pr.tables.is_empty() { "-".into() } else { pr.tables },
             pr.again,
             pr.probe,
-            pr.nest
+            pr.nest,
+            pr.pg
         );
         match groups.last_mut() {
             Some((_, b, d)) if *d == desc => *b = k,
@@ -719,7 +737,7 @@ fn run_case(line: &str) -> String {
             let simg = strict_image(&events, k);
             if simg.files != img.files {
                 strict_budget -= 1;
-                let pr = observe_image(&simg, &tables, cfg, false);
+                let pr = observe_image(&simg, &tables, cfg, false, false);
                 let acked_s = if acked.is_empty() { "-".to_string() } else { acked.iter().map(|u| u.to_string()).collect::<Vec<_>>().join(",") };
                 strict_groups.push((
                     k,
@@ -813,7 +831,7 @@ fn run_case(line: &str) -> String {
         }
         img.apply(e);
     }
-    let mut out = format!("run={} live={}", results.join(","), if live.is_empty() { "-".into() } else { live });
+    let mut out = format!("run={} live={} livepg={}", results.join(","), if live.is_empty() { "-".into() } else { live }, live_pg);
     for (a, b, d) in groups {
         out.push_str(&format!(" | k={}-{} {}", a, b, d));
     }
